@@ -11,7 +11,8 @@
    [make_dm] at the end need no assumption. *)
 From Coq Require Import ZArith List Bool Arith Lia.
 From Persim Require Import Spec.MGH Model.MGHM Model.GraphM Proofs.MGHUb Proofs.MGHFinal Proofs.GraphP
-  Proofs.GraphDm Proofs.GraphBr Proofs.GraphRelabel Proofs.GraphInduced Proofs.GraphFW.
+  Proofs.GraphDm Proofs.GraphBr Proofs.GraphRelabel Proofs.GraphInduced Proofs.GraphFW
+  Model.MGHLegacy Proofs.MGHLegacyP.
 Import ListNotations.
 Open Scope Z_scope.
 
@@ -178,6 +179,18 @@ Theorem collection_entries_bracket : forall (mk : mat -> dm_result) (pick : orac
      two_mgh_ge Di Dj (ent L i j) /\ two_mgh_le Di Dj (ent U i j) /\ 0 <= ent L i j <= ent U i j).
 Proof. exact collection_call_brackets. Qed.
 Print Assumptions collection_entries_bracket.
+
+(* T1.  Smallest sufficient integer dtype: the type chosen from the maximum holds every entry, so
+   the cast is the identity (values round-trip); the type changes exactly above 127 and 32767. *)
+Theorem dtype_roundtrip : forall D D',
+  Forall (fun r => Forall (fun x => 0 <= x) r) D -> cast_optimal D = Some D' -> D' = D.
+Proof. exact cast_optimal_roundtrip. Qed.
+Print Assumptions dtype_roundtrip.
+Theorem dtype_boundaries :
+  optimal_int_max 127 = Some 127 /\ optimal_int_max 128 = Some 32767 /\
+  optimal_int_max 32767 = Some 32767 /\ optimal_int_max 32768 = Some 2147483647.
+Proof. exact cast_optimal_boundaries. Qed.
+Print Assumptions dtype_boundaries.
 
 (* T1.  The pinned code (line 211: rows only) raises ValueError on the 3-vertex graph with one
    edge, where the intended behaviour is the 2-point space with a warning ... *)
